@@ -7,6 +7,8 @@ import (
 	"fmt"
 	"io"
 	"os"
+	"runtime"
+	"sync"
 
 	"github.com/ipfs/boxo/ipld/merkledag"
 	blocks "github.com/ipfs/go-block-format"
@@ -69,6 +71,14 @@ type Store struct {
 	// writeErrKind: the same kinds for injected write failures ("" = errInjected)
 	writeErrKind string
 
+	// parallel: several builders write through this store at once (build variants): every access takes mu
+	// (never set for the concurrent *read* scenarios of C17, whose read path must not synchronise the goroutines)
+	parallel bool
+	mu       sync.Mutex
+
+	targets []cid.Cid        // the pre-existing entry targets (putTargets)
+	lastLS  *ipld.LinkSystem // the link system the latest build on this store went through (build variants)
+
 	// write side
 	logWrites    bool
 	opens        int
@@ -92,12 +102,25 @@ func NewStore() *Store {
 
 func key(c cid.Cid) string { return string(c.Hash()) }
 
-func (s *Store) Has(c cid.Cid) bool { _, ok := s.blocks[key(c)]; return ok }
+func (s *Store) Has(c cid.Cid) bool { _, ok := s.Get(c); return ok }
 func (s *Store) Get(c cid.Cid) ([]byte, bool) {
+	if s.parallel {
+		s.mu.Lock()
+		defer s.mu.Unlock()
+	}
 	b, ok := s.blocks[key(c)]
 	return b, ok
 }
 func (s *Store) Put(c cid.Cid, b []byte) {
+	if s.parallel {
+		s.mu.Lock()
+		defer s.mu.Unlock()
+	}
+	s.put(c, b)
+}
+
+// put: the caller holds mu when the store is shared between builders
+func (s *Store) put(c cid.Cid, b []byte) {
 	if _, ok := s.blocks[key(c)]; !ok {
 		s.order = append(s.order, c)
 	}
@@ -158,6 +181,10 @@ func (s *Store) LinkSystem() *ipld.LinkSystem {
 		if !ok {
 			return nil, fmt.Errorf("not a cid link")
 		}
+		if s.parallel {
+			s.mu.Lock()
+			defer s.mu.Unlock()
+		}
 		if s.logLoads {
 			s.loads = append(s.loads, cl.Cid)
 			s.loadCount++
@@ -179,6 +206,10 @@ func (s *Store) LinkSystem() *ipld.LinkSystem {
 		return bytes.NewReader(b), nil
 	}
 	ls.StorageWriteOpener = func(lctx linking.LinkContext) (io.Writer, linking.BlockWriteCommitter, error) {
+		if s.parallel {
+			s.mu.Lock()
+			defer s.mu.Unlock()
+		}
 		s.opens++
 		if s.failOpenAt > 0 && s.opens == s.failOpenAt {
 			s.wevents = append(s.wevents, WriteEv{Kind: "openfail"})
@@ -193,13 +224,18 @@ func (s *Store) LinkSystem() *ipld.LinkSystem {
 			if !ok {
 				return fmt.Errorf("not a cid link")
 			}
+			if s.parallel {
+				runtime.Gosched() // let the other builders run between a block's encoding and its commit
+				s.mu.Lock()
+				defer s.mu.Unlock()
+			}
 			s.commitCount++
 			if s.failCommitAt > 0 && s.commitCount == s.failCommitAt {
 				s.wevents = append(s.wevents, WriteEv{Kind: "commitfail", Cid: cl.Cid, Len: buf.Len()})
 				return kindErr(s.writeErrKind)
 			}
 			b := append([]byte(nil), buf.Bytes()...)
-			s.Put(cl.Cid, b)
+			s.put(cl.Cid, b)
 			if s.logWrites {
 				s.commits = append(s.commits, CommitEv{Cid: cl.Cid, Len: len(b), Bytes: b})
 				s.wevents = append(s.wevents, WriteEv{Kind: "commit", Cid: cl.Cid, Len: len(b)})
